@@ -3,6 +3,7 @@ import random
 
 from .. import campaign as C
 from .. import decodecheck as D
+from .. import suite_trace as ST
 from .. import sweeps as S
 
 
@@ -33,6 +34,13 @@ def run(ctx):
               for _ in range(4000 if q else 150000)]
     groups, res = D.run_words(ctx, rnd, words, thumb=True)
     D.check_cube_class(res)
+    # the repository's own tests as a trace source: every emulate_cycle() they perform, judged on the complete state
+    sg, summary = ST.groups(thumb=True)
+    sres = C.judge_groups(ctx, sg, D.clause_filter, rnd=rnd, tags_of=D.tags_of, site_of=lambda e, v: (e.get('cls') or v['path']))
+    ctx.extra['repo_test_suite_events'] = {'events': len(sres), 'exact': sum(1 for g, e, v in sres if v['path'].startswith('exact')),
+                                           'pytest': summary}
+    if len(sres) < 100:
+        raise D.MachineryError('only %d events recorded from the repository test suite' % len(sres))
     D.summarize(ctx, res, 't32')
     ctx.exhaustive = True
     ctx.extra.update({'t16_events': len(res16), 't32_cubes': len(leaves), 't32_classes': len({l[2] for l in leaves}),
